@@ -899,9 +899,9 @@ pub fn grow_case(a: &[u128]) -> Vec<u128> {
             (o1.data, o2.data)
         }
         2 => {
-            let mut w1 = crate::sched::ShortW { buf: Vec::new(), maxw: 100, cap: usize::MAX };
+            let mut w1 = crate::sched::ShortW { buf: Vec::new(), maxw: 48, cap: usize::MAX };
             sync::outboard_post_order(Cursor::new(d1), BaoTree::new(d1.len() as u64, bsz), &mut w1).unwrap();
-            let mut w2 = crate::sched::ShortW { buf: Vec::new(), maxw: 100, cap: usize::MAX };
+            let mut w2 = crate::sched::ShortW { buf: Vec::new(), maxw: 48, cap: usize::MAX };
             sync::outboard_post_order(Cursor::new(&d2), BaoTree::new(d2.len() as u64, bsz), &mut w2).unwrap();
             (w1.buf, w2.buf)
         }
